@@ -454,5 +454,136 @@ func init() {
 	intrinsics["strings.Repeat"] = func(in *Interp, a []Val) Val {
 		return strOf(strings.Repeat(concStr(a[0]), concIntArg(a[1])))
 	}
+	// ---- sort (reflect-based in the standard library): stable insertion
+	// sort, which is what sort.SliceStable and sort.Slice do for short slices
+	sortSlice := func(in *Interp, a []Val) Val {
+		x, _ := a[0].(Iface)
+		sl, ok := x.V.(Slice)
+		if !ok {
+			in.inconclusive("sort.Slice of a non-slice")
+		}
+		less := a[1]
+		call := func(i, j int) bool {
+			r := in.call(less, []Val{concInt(64, uint64(i)), concInt(64, uint64(j))}).(Sc)
+			if r.T == nil {
+				return r.C == 1
+			}
+			return in.ex.Branch(r.T)
+		}
+		for i := 1; i < sl.Len; i++ {
+			for j := i; j > 0 && call(j, j-1); j-- {
+				in.noteWrite(sl.Obj)
+				c := sl.Obj.Cells
+				c[sl.Off+j], c[sl.Off+j-1] = c[sl.Off+j-1], c[sl.Off+j]
+			}
+		}
+		return nil
+	}
+	intrinsics["sort.Slice"] = sortSlice
+	intrinsics["sort.SliceStable"] = sortSlice
+
+	// ---- sync.Pool: Get returns a pooled object or New(); an object that was
+	// Put may be owned by another goroutine from then on
+	intrinsics["(*sync.Pool).Put"] = func(in *Interp, a []Val) Val {
+		p := a[0].(Ptr)
+		if ifc, ok := a[1].(Iface); ok && ifc.T != nil {
+			in.pools[p.Slot] = append(in.pools[p.Slot], a[1])
+			in.markPool(ifc.V, true, 0)
+		}
+		return nil
+	}
+	intrinsics["(*sync.Pool).Get"] = func(in *Interp, a []Val) Val {
+		p := a[0].(Ptr)
+		items := in.pools[p.Slot]
+		if len(items) > 0 && in.ex.ChooseFree("pool", 2) == 0 {
+			it := items[len(items)-1]
+			in.pools[p.Slot] = items[:len(items)-1]
+			in.markPool(it.(Iface).V, false, 0)
+			return it
+		}
+		st := (*p.Slot).(Struct)
+		tp := p.poolNewField(in)
+		if tp < 0 || isNilVal(st[tp]) {
+			return Iface{}
+		}
+		r := in.call(st[tp], nil)
+		if ifc, ok := r.(Iface); ok && ifc.T != nil {
+			in.markPool(ifc.V, false, 0)
+		}
+		return r
+	}
+	for _, n := range []string{"(*sync.Mutex).Lock", "(*sync.Mutex).Unlock", "(*sync.RWMutex).Lock", "(*sync.RWMutex).Unlock", "(*sync.RWMutex).RLock", "(*sync.RWMutex).RUnlock"} {
+		name := n
+		intrinsics[name] = func(in *Interp, a []Val) Val {
+			in.inconclusive("the library uses " + name + ": locks are not modelled")
+			return nil
+		}
+	}
+
+	// ---- a second process: package-level variables are initialised again,
+	// with the given map iteration order
+	zz("zzNewProcess", func(in *Interp, a []Val) Val {
+		mode := concStr(a[0])
+		for g := range in.globals {
+			if g.Pkg == in.w.mq {
+				delete(in.globals, g)
+			}
+		}
+		saved, savedBudget := in.orderMode, in.stepBudget
+		in.orderMode = mode
+		in.stepBudget = 1 << 30
+		depth := len(in.stack)
+		in.callFunction(in.w.mq.Func("init"), nil, nil)
+		in.stack = in.stack[:depth]
+		in.orderMode, in.stepBudget = saved, savedBudget
+		return nil
+	})
 	_ = types.Typ
+}
+
+// markPool marks the objects reachable from v as released to / obtained from
+// a pool.
+func (in *Interp) markPool(v Val, released bool, depth int) {
+	if depth > 4 {
+		return
+	}
+	set := func(o *Obj) {
+		if o != nil {
+			o.Released = released
+			o.PoolOwned = !released
+		}
+	}
+	switch x := v.(type) {
+	case Ptr:
+		if x.Slot != nil {
+			set(x.Obj)
+			in.markPool(*x.Slot, released, depth+1)
+		}
+	case Slice:
+		set(x.Obj)
+	case Struct:
+		for _, f := range x {
+			in.markPool(f, released, depth+1)
+		}
+	case Iface:
+		in.markPool(x.V, released, depth+1)
+	}
+}
+
+// poolNewField finds the index of the New field of sync.Pool.
+func (p Ptr) poolNewField(in *Interp) int {
+	pkg := in.w.prog.ImportedPackage("sync")
+	if pkg == nil {
+		return -1
+	}
+	st, ok := pkg.Type("Pool").Type().Underlying().(*types.Struct)
+	if !ok {
+		return -1
+	}
+	for i := 0; i < st.NumFields(); i++ {
+		if st.Field(i).Name() == "New" {
+			return i
+		}
+	}
+	return -1
 }
